@@ -23,7 +23,13 @@ timeout 600 cargo ${TOOLCHAIN:-} test --offline --test seed_demo $EXTRA >> $LOG 
 echo "rc=$RC_MUT" >> $LOG
 rm -f tests/seed_demo.rs
 echo "== full suite WITH the change" >> $LOG
-cargo nextest run --workspace --no-fail-fast --tool-config-file pb:/w/lib/nextest.toml --profile pb --test-threads 8 --offline 2>&1 | tail -3 >> $LOG
+cargo nextest run --workspace --no-fail-fast --tool-config-file pb:/w/lib/nextest.toml --profile pb --test-threads 8 --offline > $LOG.suite 2>&1
+if grep -q "SIGTERM" $LOG.suite; then
+  # a stray SIGTERM from another job in the sandbox killed a test process: not a verdict, run again
+  echo "(suite run hit a stray SIGTERM; repeated)" >> $LOG
+  cargo nextest run --workspace --no-fail-fast --tool-config-file pb:/w/lib/nextest.toml --profile pb --test-threads 8 --offline > $LOG.suite 2>&1
+fi
+tail -3 $LOG.suite >> $LOG; rm -f $LOG.suite
 SUITE=$(grep -c "531 passed" $LOG)
 git checkout -q -- . ; git clean -fdq -e target
 echo "RESULT $ID: demo_clean_rc=$RC_CLEAN demo_mutant_rc=$RC_MUT suite_531_passed=$SUITE" | tee -a $LOG
